@@ -74,7 +74,7 @@ def build(run, ob, wdir, witness):
     try:
         ctext = ir2c.translate(open(red).read(), ob.entry, {'shift_checks': ob.ir_opts.get('shift_checks', False),
                                                            'nsw_checks': ob.ir_opts.get('nsw_checks', False),
-                                                           'keep_extern': ob.ir_opts.get('keep_extern'), 'stub_funcs': ob.ir_opts.get('stub_funcs'),
+                                                           'keep_extern': ob.ir_opts.get('keep_extern'), 'small_memmove': ob.ir_opts.get('small_memmove', False), 'stub_funcs': ob.ir_opts.get('stub_funcs'),
                                                            'lines': True})
     except Exception as ex:
         import traceback
